@@ -11,7 +11,7 @@
     time T whose path matches q); [spec_leaf] folds the four-line rule
     [spec_leaf_step] over them. *)
 From Gnmi Require Import Base.Prelude CTree.CTreeModel CTree.CTreeProofs Path.PathModel
-  Cache.CacheModel Cache.CacheProofs Cache.C02Check Cache.C03Check Cache.FeedReplay.
+  Cache.CacheModel Cache.CacheProofs Cache.C02Check Cache.C03Check Cache.FeedReplay Cache.C02History.
 Local Open Scope Z_scope.
 
 (** the refinement: for EVERY history on a fresh target and EVERY index path,
@@ -24,6 +24,28 @@ Theorem C02_leaf_holds_newest :
     spec_leaf (cfg_future_threshold cfg) (project (new_target name cfg) H q).
 Proof. exact leaf_holds_newest. Qed.
 Print Assumptions C02_leaf_holds_newest.
+
+(** round 7: the refinement over ALL histories in which no call panics (panics
+    are C12's).  Units refused for a leaf/branch collision are dropped from
+    the projection, and WHICH units are refused is decided by the
+    specification side alone: [project_all] threads a flat map (moved only by
+    [spec_leaf_step], [C02History.funit]) and drops an update unit iff its
+    index path is a strict prefix of, or strictly extends, a path stored in
+    that flat map ([C02History.refused] = K_P's [sconflict]); stale, future,
+    invalid-path and wrong-type units need no hypothesis at all.  Second
+    conjunct: the flat map itself ([frun]) holds exactly the tree's leaves.
+    Witness history with a collision, a stale unit and a delete:
+    [C02History.ex_hist_all_hyps], [ex_hist_all_events]. *)
+Theorem C02_leaf_holds_newest_all :
+  forall name cfg (H : hist) (q : path),
+    no_panic_history (new_target name cfg) H ->
+    lookup (t_tree (trun (new_target name cfg) H)) q =
+    spec_leaf (cfg_future_threshold cfg)
+              (project_all (cfg_future_threshold cfg) (new_target name cfg) [] H q) /\
+    lookup (t_tree (trun (new_target name cfg) H)) q =
+    slookup (frun (cfg_future_threshold cfg) (new_target name cfg) [] H) q.
+Proof. exact leaf_holds_newest_all. Qed.
+Print Assumptions C02_leaf_holds_newest_all.
 
 (** the same from any well-formed state (any reachable tree) *)
 Theorem C02_leaf_holds_newest_from :
